@@ -3,7 +3,7 @@
 From Coq Require Import String List NArith Bool Arith.
 From CMinx Require Import Base.Str Extract.Tree
      Model.Lexer Model.Parser Model.Writer Model.DocTypes Model.Aggregator Model.Pipeline
-     Model.Path Model.Naming Model.Walk
+     Model.Path Model.Naming Model.Walk Model.Config Gen.ConfigData
      Spec.Projections.
 Import ListNotations.
 
@@ -169,6 +169,64 @@ Definition e_action (a : action) : tree :=
   | AExit255 => L [I 4%N]
   end.
 
+Fixpoint d_yval_fuel (fuel : nat) (t : tree) : yval :=
+  match fuel with
+  | O => YNull
+  | S f =>
+      let a := d_items t in
+      match d_nat (d_arg 0 a) with
+      | 0 => YBool (d_bool (d_arg 1 a))
+      | 1 => YStr (d_str (d_arg 1 a))
+      | 2 => YInt (d_n (d_arg 1 a))
+      | 3 => YNull
+      | 4 => YList (map (d_yval_fuel f) (d_items (d_arg 1 a)))
+      | _ => YMap
+      end
+  end.
+Definition d_yval (t : tree) : yval := d_yval_fuel 16 t.
+
+Definition d_source (k : source_kind) (t : tree) : source :=
+  let a := d_items t in
+  {| src_kind := k; src_vals := d_list (d_pair d_str d_yval) (d_arg 0 a);
+     src_dir := d_opt d_str (d_arg 1 a) |}.
+
+Definition e_cval (v : cval) : tree :=
+  match v with
+  | CBool b => L [I 0%N; e_bool b]
+  | CStr x => L [I 1%N; e_str x]
+  | CNone => L [I 2%N]
+  | CStrs l => L [I 3%N; e_list e_str l]
+  | CDict => L [I 4%N]
+  end.
+
+Fixpoint e_yval (v : yval) : tree :=
+  match v with
+  | YBool b => L [I 0%N; e_bool b]
+  | YStr x => L [I 1%N; e_str x]
+  | YInt n => L [I 2%N; I n]
+  | YNull => L [I 3%N]
+  | YList l => L [I 4%N; L (map e_yval l)]
+  | YMap => L [I 5%N]
+  end.
+
+(* main(): argv, optional -s source, optional user source; the packaged defaults and the
+   template come from Gen.ConfigData *)
+Definition main_settings (cwd : str) (argv : list str) (sfile user : option source) : tree :=
+  match parse_args cli_table argv with
+  | None => L [I 2%N]                       (* usage error *)
+  | Some p =>
+      let stack := args_source cli_table p
+                   :: (match sfile with Some x => [x] | None => [] end)
+                   ++ (match user with Some x => [x] | None => [] end)
+                   ++ [{| src_kind := SrcDefaults; src_vals := yaml_defaults; src_dir := None |}] in
+      match settings_of cwd stack template,
+            all_contents stack (s"input.exclude_filters") with
+      | Some st, Some ex =>
+          L [I 0%N; e_list (e_pair e_str e_cval) st; e_list e_yval ex; e_list e_str (p_positional p)]
+      | _, _ => L [I 1%N]                   (* confuse error *)
+      end
+  end.
+
 Definition dispatch_base (fid : nat) (a : list tree) : option tree :=
   match fid with
   | 1 => Some (e_str (clean_doc_lines (d_list d_str (d_arg 0 a))))
@@ -246,5 +304,8 @@ Definition dispatch_base (fid : nat) (a : list tree) : option tree :=
                    e_str (basename (d_str (d_arg 0 a)));
                    e_str (dirname (d_str (d_arg 0 a)));
                    e_str (relpath_abs (d_str (d_arg 0 a)) (d_str (d_arg 1 a)))])
+  | 14 => Some (main_settings (d_str (d_arg 0 a)) (d_list d_str (d_arg 1 a))
+                              (d_opt (d_source SrcFile) (d_arg 2 a))
+                              (d_opt (d_source SrcUser) (d_arg 3 a)))
   | _ => None
   end.
